@@ -160,8 +160,16 @@ def gen_pk_rename(rng):
     else:
         b2['fields'].append(intf('pages'))
         m2 = {'op': 'AddField', 'model': 'Book', 'field': intf('pages')}
+    raw_sql = rng.random() < 0.35
+    first = [ren]
+    if raw_sql:
+        # a raw SQL mutation without update_func: the app can no longer be
+        # simulated, its other mutations still have to be tracked
+        first = [{'op': 'SQLMutation', 'tag': 'raw_1', 'raw': True, 'sql': [
+            'UPDATE "django_content_type" SET "model" = "model" '
+            'WHERE 1 = 0 -- raw_1']}, ren]
     project = {'apps': {'va': {'v0': va0, 'steps': [
-        {'evos': [{'label': 'rename_pk', 'mutations': [ren]}],
+        {'evos': [{'label': 'rename_pk', 'mutations': first}],
          'target': va1},
         {'evos': [{'label': 'touch_book', 'mutations': [m2]}],
          'target': va2}]}},
@@ -182,7 +190,7 @@ def gen_pk_rename(rng):
         rows['vb_listing'] = [{'id': 1, 'seller_id': 1, 'price': None}]
     return {'kind': 'pk_rename', 'project': project, 'rows': rows,
             'path': rng.choice(['stepwise', 'direct']),
-            'keep_column': keep_column}
+            'keep_column': keep_column, 'raw_sql': raw_sql}
 
 
 def _exec_pk_rename(scn):
@@ -191,6 +199,7 @@ def _exec_pk_rename(scn):
     stats, viols = {'kind_pk_rename': 1}, []
     detail = dict(kind='pk_rename', path=scn['path'],
                   keep_column=scn['keep_column'], order=P['order'],
+                  raw_sql=bool(scn.get('raw_sql')),
                   ops=['RenameField:pk'], ops_str='RenameField:pk',
                   model_name_reuse=False, renamed_name_in_other_app=False)
     res = {'violations': viols, 'stats': stats, 'nontrivial': True,
